@@ -126,7 +126,8 @@ def get_exponentiated_qubit_operator_circuit(qubit_op, time=1., variational=Fals
     exp_pauli_word_gates = list()
     for pauli_word, coef in timed_pauli_words:
         if pauli_word:  # identity terms do not contribute to evolution outside of a phase
-            if abs(np.real(coef)) > 1.e-10:
+            # Variational terms are always emitted, so that the layout of the variational gates does not depend on parameter values
+            if variational or abs(np.real(coef)) > 1.e-10:
                 exp_pauli_word_gates += exp_pauliword_to_gates(pauli_word,
                                                                np.real(coef),
                                                                variational=variational,
